@@ -35,7 +35,15 @@ pub enum COp {
     /// full iteration: 0 iter, 1 keys, 2 values
     IterAll(u8),
     Len,
+    /// retain (`force` = retain_force) whose predicate panics at its `at`-th invocation (0-based);
+    /// the thread catches the panic and carries on with its next operation
+    RetainPanic { pred: Pred, force: bool, at: u8 },
+    /// compute_if_present whose closure panics (if the key is present)
+    ComputePanic(u16),
 }
+
+/// payload of the panics injected by `RetainPanic` / `ComputePanic`
+pub struct InjectedPanic;
 
 #[derive(Clone, Debug, PartialEq, Eq, Serialize, Deserialize)]
 pub struct CCfg {
@@ -92,7 +100,7 @@ impl Prog {
         for t in &self.threads {
             for op in t {
                 match op {
-                    COp::Get(k) | COp::GetKV(k) | COp::Contains(k) | COp::Insert(k) | COp::TryInsert(k) | COp::Remove(k) | COp::RemoveEntry(k) | COp::Compute(k, _) => v.push(*k),
+                    COp::Get(k) | COp::GetKV(k) | COp::Contains(k) | COp::Insert(k) | COp::TryInsert(k) | COp::Remove(k) | COp::RemoveEntry(k) | COp::Compute(k, _) | COp::ComputePanic(k) => v.push(*k),
                     _ => {}
                 }
             }
@@ -144,6 +152,8 @@ pub struct Recs {
     /// values written: id -> (tag, payload)
     pub written: BTreeMap<u64, (u32, u64)>,
     pub held_checked: u64,
+    /// injected panics that propagated to the caller
+    pub panics: u64,
 }
 
 #[derive(Clone, Debug)]
@@ -485,6 +495,55 @@ fn run_thread(wk: &Wk<'_>, map: &FMap, cfg: &CCfg, ops: &[COp], hold: bool, log:
                 let resp = wk.op_end();
                 log.recs.retains.push(RetainRec { thread: me, force, inv, resp, calls: calls.into_inner() });
             }
+            COp::RetainPanic { pred, force, at } => {
+                let calls = std::cell::RefCell::new(Vec::new());
+                let seen = std::cell::Cell::new(0u32);
+                let f = |k: &K, v: &V| -> bool {
+                    if seen.get() == *at as u32 {
+                        std::panic::panic_any(InjectedPanic);
+                    }
+                    seen.set(seen.get() + 1);
+                    let keep = pred.keep(k.tag, v.payload);
+                    calls.borrow_mut().push((k.tag, v.id, keep, wk.now()));
+                    keep
+                };
+                let inv = wk.op_start();
+                let r = std::panic::catch_unwind(std::panic::AssertUnwindSafe(|| match (g, *force) {
+                    (Some(g), false) => map.retain(f, g),
+                    (Some(g), true) => map.retain_force(f, g),
+                    (None, false) => map.pin().retain(f),
+                    (None, true) => map.pin().retain_force(f),
+                }));
+                if let Err(e) = r {
+                    if !e.is::<InjectedPanic>() {
+                        std::panic::resume_unwind(e);
+                    }
+                    log.recs.panics += 1;
+                }
+                let resp = wk.op_end();
+                log.recs.retains.push(RetainRec { thread: me, force: *force, inv, resp, calls: calls.into_inner() });
+            }
+            COp::ComputePanic(i) => {
+                let tag = hot_tag(*i);
+                let k = K::probe(tag);
+                let f = |_: &K, _: &V| -> Option<V> { std::panic::panic_any(InjectedPanic) };
+                let _ = wk.op_start();
+                let r = std::panic::catch_unwind(std::panic::AssertUnwindSafe(|| match g {
+                    Some(g) => map.compute_if_present(&k, f, g).map(|v| v.id),
+                    None => map.pin().compute_if_present(&k, f).map(|v| v.id),
+                }));
+                match r {
+                    Err(e) => {
+                        if !e.is::<InjectedPanic>() {
+                            std::panic::resume_unwind(e);
+                        }
+                        log.recs.panics += 1;
+                    }
+                    Ok(Some(id)) => log.recs.faults.push(format!("C18: compute_if_present with a panicking closure returned value {} instead of propagating the panic", id)),
+                    Ok(None) => {}
+                }
+                let _ = wk.op_end();
+            }
             COp::Clear => {
                 let inv = wk.op_start();
                 match g {
@@ -677,6 +736,7 @@ pub fn exec(pool: &Pool, prog: &Prog, spec: SchedSpec<'_>, opts: &ExecOpts, map_
             recs.faults.extend(r.faults);
             recs.written.extend(r.written);
             recs.held_checked += r.held_checked;
+            recs.panics += r.panics;
         }
     }
     let mut oracle_fail: Option<(&'static str, String)> = None;
@@ -901,6 +961,8 @@ pub enum Mix {
     /// a tree bin in a 64-bin table at its threshold whose keys go to the low half, the high half
     /// or both when the table is split, with readers inside the tree while it migrates
     TreeMove,
+    /// writers next to retain / compute_if_present calls whose callbacks panic (C18 under concurrency)
+    Panics,
     /// a crowded list bin that one thread extends (-> treeify) while another drains it with
     /// retain / retain_force / removes: opens the windows around late treeification
     Drain,
@@ -962,6 +1024,16 @@ pub fn cop_strategy(mix: Mix, hot: u16) -> BoxedStrategy<COp> {
         ]
         .boxed(),
         Mix::Long => (16u16..200).prop_map(COp::Insert).boxed(),
+        Mix::Panics => prop_oneof![
+            4 => (crate::model::pred_strategy(), any::<bool>(), 0u8..6).prop_map(|(pred, force, at)| COp::RetainPanic { pred, force, at }),
+            3 => k.clone().prop_map(COp::ComputePanic),
+            5 => k.clone().prop_map(COp::Insert),
+            2 => (0u16..40).prop_map(COp::Insert),
+            3 => k.clone().prop_map(COp::Remove),
+            2 => (k.clone(), act.clone()).prop_map(|(k, a)| COp::Compute(k, a)),
+            1 => k.clone().prop_map(COp::Get),
+        ]
+        .boxed(),
         Mix::Helpers => {
             let present = (16u16..40).boxed();
             prop_oneof![
